@@ -80,6 +80,9 @@ theorem crcvBlock_key (single : Bool) (cap : Nat) (junk : UInt8) (lg : Crcv) (nu
   by_cases hund : m ≠ 0 ∧ data.length ≠ 2 ^ (szx + 4)
   · rw [if_pos hund] at h; cases h
   · rw [if_neg hund] at h
+    by_cases hlastnum : m ≠ 0 ∧ 0xFFFFF ≤ num
+    · rw [if_pos hlastnum] at h; cases h
+    rw [if_neg hlastnum] at h
     generalize crcvSize2 r.size2 m (num * 2 ^ (szx + 4) + data.length) = size2 at h
     obtain ⟨k1, k2⟩ := crcvInit_key lg szx size2 r e he
     generalize crcvInit lg szx size2 r = lg2 at h k1 k2
